@@ -4,7 +4,7 @@ import Ggql.Model.Rollback
 namespace Ggql.Driver.C14
 open Ggql Ggql.Rollback
 
-def cfgCur : Cfg := {}
+def cfgCurOf (tb : Tables) : Cfg := { schemaDuringScan := tb.schemaDuringScan }
 
 def decAct : T → Option Act
   | .node "define" [n] => do pure (.define (← n.asStr) ["m"])
@@ -23,7 +23,8 @@ def initState (names : List String) : State :=
   { table := names.zipIdx.map (fun p => (p.1, p.2)), heap := fun _ => ["m"], schema := none, next := names.length }
 
 /-- case: (c14 (l existing-names…) (l ACT…) FAIL); obs: (obs same) -/
-def handle (_tb : Tables) (c impl : T) : String :=
+def handle (tb : Tables) (c impl : T) : String :=
+  let cfgCur := cfgCurOf tb
   match c with
   | .node "c14" [names, acts, fail] =>
     match (do pure ((← optMap T.asStr (← names.asList)), (← optMap decAct (← acts.asList)), (← decFail fail))) with
@@ -43,6 +44,7 @@ def handle (_tb : Tables) (c impl : T) : String :=
       else verdict impl cur alts specOk
   | _ => "bad-op"
 
-def flags (_tb : Tables) : List (String × Bool) := [("D30", cfgCur.shallowRollback), ("D31", cfgCur.schemaDuringScan)]
+def flags (tb : Tables) : List (String × Bool) :=
+  [("D30", (cfgCurOf tb).shallowRollback), ("D31", (cfgCurOf tb).schemaDuringScan)]
 
 end Ggql.Driver.C14
